@@ -10,10 +10,11 @@ PROP = "C05"
 SHARDS = {"quick": 8, "thorough": 16}
 TIME_CAP = {"quick": 70, "thorough": 900}
 REQUIRED = ["value_round_trips", "json_round_trips", "dual_round_trips", "fixpoint_checks", "completion_checks", "programs", "std_programs", "aliaser_programs",
-            "fields_set_programs", "discriminated_round_trips"]
+            "fields_set_programs", "discriminated_round_trips", "discriminated_families", "discriminated_roundtrips", "discriminated_class_checks"]
 RULE = ("bijective fragment of the C01 program space (no one-way conversion, serialized method, asymmetric skip, init=False / InitVar field, class-ambiguous union; exclude_* off) "
         "+ standard-library converted types (UUID, date/datetime/time, Decimal, bytes, Path, ip addresses, Pattern) + discriminated unions; values = images of model-valid data; "
-        "aliaser in {identity, camelCase, custom} on both sides, additional_properties. A case = (type signature, options, datum); distinct by hash; non-trivial when the datum is a container.")
+        "aliaser in {identity, camelCase, custom} on both sides, additional_properties. A case = (type signature, options, datum); distinct by hash; non-trivial when the datum is a container."
+        ' Plus discriminated-union families (vf/disc.py): class selected by the tag, deserialize(serialize(v)) == v.')
 ASSUMPTIONS = ["values are drawn from the image of deserialize (canonical runtime classes)", "equality = canonical typed image (runtime classes at every node, NaN-aware)",
                "dual direction compared on data without duplicate items at set-typed positions; integers given for floats compare numerically"]
 
@@ -255,6 +256,8 @@ def json_ambiguous(t):
 
 def run(env):
     harness.tag_errors(True)
+    from vf import disc
+    disc.run_family(env, disc.check_c05, env.n(96, 4000))  # discriminated-union families first (their own budget)
     rng = env.rng
     n = env.n(12000, 200000)
     small = [b for _, b in gen_types.enumerate_small(depth2=False)]
